@@ -219,3 +219,39 @@ Definition same_cfg (c c' : cfg) : Prop :=
 (* what the model's result looks like as an observation *)
 Definition obs_of (r : result) : obs := match r with Ok m => OData m | Panic => OPanic end.
 
+
+(* =====================  end to end (several backends, merge, client document)  ===================== *)
+(* formatted outputs of the backends that answered, in arrival order *)
+Definition outs (bs : list backend) : list obj :=
+  flat_map (fun b => match backend_out b with Some m => [m] | None => [] end) bs.
+
+(* the value a top-level union leaves under k: that of the last answer holding k *)
+Fixpoint last_with (k : string) (ms : list obj) : option json :=
+  match ms with
+  | [] => None
+  | m :: r => match last_with k r with Some x => Some x | None => lookup k m end
+  end.
+
+(* no two formatted outputs share a top-level key *)
+Fixpoint disjoint_keys (ms : list obj) : Prop :=
+  match ms with
+  | [] => True
+  | m :: r => (forall k, lookup k m <> None -> forall m', In m' r -> lookup k m' = None) /\
+              disjoint_keys r
+  end.
+Fixpoint disjoint_keys_b (ms : list obj) : bool :=
+  match ms with
+  | [] => true
+  | m :: r => forallb (fun kv => forallb (fun m' => negb (mem (fst kv) m')) r) m && disjoint_keys_b r
+  end.
+
+(* boolean form of "nothing reaches the client that is not in some backend's formatted
+   output": every top-level member of the client document is (as a map) the member of the same
+   name of one of the outputs - hence every path below it too *)
+Definition noleak_e2e_b (os : list obj) (client : obj) : bool :=
+  forallb (fun kv => existsb (fun m => match lookup (fst kv) m with
+                                       | Some y => json_eqb (snd kv) y
+                                       | None => false end) os) client.
+(* and nothing a backend's formatter let through is lost (the merge is a union) *)
+Definition all_delivered_b (os : list obj) (client : obj) : bool :=
+  forallb (fun m => forallb (fun kv => mem (fst kv) client) m) os.
